@@ -9,6 +9,7 @@ package main
 
 import (
 	"context"
+	"encoding/json"
 	"fmt"
 	"io"
 	"os"
@@ -171,6 +172,33 @@ type c12Result struct {
 	Spurious  []string
 	Fatal     string // harness-level problem (engine error)
 	Hang      string
+	Died      string // the executor process died on this case
+	DiedTop   string
+	DiedLog   string
+}
+
+func executorC12() {
+	srv, err := newSrvSide(c12Limits)
+	if err != nil {
+		fmt.Fprintln(os.Stderr, "executor:", err)
+		os.Exit(3)
+	}
+	cli, err := newCliSide()
+	if err != nil {
+		fmt.Fprintln(os.Stderr, "executor:", err)
+		os.Exit(3)
+	}
+	executorMain(func(line []byte) any {
+		var c c12Case
+		if err := json.Unmarshal(line, &c); err != nil {
+			return c12Result{Fatal: "bad case: " + err.Error()}
+		}
+		res := runC12(c, srv, cli)
+		if res.Fatal != "" { // retry once: a harness-level socket hiccup must not become a verdict
+			res = runC12(c, srv, cli)
+		}
+		return res
+	})
 }
 
 func runC12(c c12Case, srv *srvSide, cli *cliSide) c12Result {
@@ -484,6 +512,9 @@ func c12Features(c c12Case, i int) string {
 
 // verdictC12 turns a result into (signature, detail); "" = held.
 func verdictC12(c c12Case, r c12Result) (sig, detail string) {
+	if r.Died != "" {
+		return fmt.Sprintf("reassembly/%s/None/process-died[%s]/%s", c.Kind, r.Died, r.DiedTop), "the receiving process died while handling a conforming stream\n" + r.DiedLog
+	}
 	if r.Hang != "" {
 		return fmt.Sprintf("reassembly/%s/None/hang/%s", c.Kind, hangSite(c.Kind)), r.Hang
 	}
@@ -662,15 +693,17 @@ func mainC12() {
 	r := evid.New("C12")
 	var rc c12Case
 	if evid.ReplayInput(&rc) {
-		srv, err := newSrvSide(c12Limits)
+		pl := &pool{prop: "C12"}
+		var res c12Result
+		d, err := pl.run(rc, &res)
+		pl.close()
 		if err != nil {
 			evid.EngineError("C12", "%v", err)
 		}
-		cli, err := newCliSide()
-		if err != nil {
-			evid.EngineError("C12", "%v", err)
+		if d != nil {
+			res = newC12Result(len(rc.Msgs))
+			res.Died, res.DiedTop, res.DiedLog = d.Kind, d.Top, d.Exit+"\n"+head(d.Stderr, 2500)
 		}
-		res := runC12(rc, srv, cli)
 		sig, detail := verdictC12(rc, res)
 		fmt.Printf("replay %+v\n result %+v\n sig=%q\n detail=%q\n", rc, res, sig, detail)
 		if sig != "" || res.Fatal != "" {
@@ -687,14 +720,8 @@ func mainC12() {
 	total := enumerateC12(thorough, func(int64, c12Case) {})
 	r.Set("cases_enumerated", total)
 	deaths := evid.Sharded(r, 4<<30, func(s evid.ShardInfo, w *evid.Run) {
-		srv, err := newSrvSide(c12Limits)
-		if err != nil {
-			evid.EngineError("C12", "%v", err)
-		}
-		cli, err := newCliSide()
-		if err != nil {
-			evid.EngineError("C12", "%v", err)
-		}
+		pl := &pool{prop: "C12"}
+		defer pl.close()
 		outcomes := map[string]int{}
 		hangs := 0
 		enumerateC12(thorough, func(idx int64, c c12Case) {
@@ -706,14 +733,17 @@ func mainC12() {
 				w.Capped("worker stopped after 2 hang verdicts (each costs a 25 s watchdog); the remaining cases of this shard were not run")
 				return
 			}
-			evid.Publish(fmt.Sprintf("%+v", c))
-			res := runC12(c, srv, cli)
+			var res c12Result
+			d, err := pl.run(c, &res)
+			if err != nil {
+				evid.EngineError("C12", "executor failure on case %+v: %v", c, err)
+			}
+			if d != nil {
+				res = newC12Result(len(c.Msgs))
+				res.Died, res.DiedTop, res.DiedLog = d.Kind, d.Top, d.Exit+"\n"+head(d.Stderr, 2500)
+			}
 			if res.Fatal != "" {
-				// retry once: a harness-level socket hiccup must not become a verdict
-				res = runC12(c, srv, cli)
-				if res.Fatal != "" {
-					evid.EngineError("C12", "harness failure on case %+v: %s", c, res.Fatal)
-				}
+				evid.EngineError("C12", "harness failure on case %+v: %s", c, res.Fatal)
 			}
 			w.Eval(caseKeyC12(c))
 			if idx%9973 == 0 {
@@ -750,11 +780,7 @@ func mainC12() {
 		}
 	})
 	for _, d := range deaths {
-		var c c12Case
-		if d.LastCase == "" {
-			evid.EngineError("C12", "worker %d ended without a result and without a published case: %s %s", d.Shard, d.ExitErr, tail(d.Stderr, 500))
-		}
-		r.Violate("reassembly/worker-died/"+panicClass(firstPanicLine(d.Stderr))+"/"+topRepoFunc(d.Stderr), fmt.Sprintf("worker %d died (%s) while running %s\n%s", d.Shard, d.ExitErr, d.LastCase, tail(d.Stderr, 1500)), c)
+		evid.EngineError("C12", "supervisor %d died (%s) while running %s: %s", d.Shard, d.ExitErr, d.LastCase, tail(d.Stderr, 800))
 	}
 	r.Assume("security mode None only: reassembly (Receive, the chunks table, mergeChunks) runs after verifyAndDecrypt and does not depend on the mode; the secured receive path is covered by C10/C13",
 		"message bodies are FindServersRequest / ReadResponse values carrying a position-dependent pattern, so a lost, duplicated or misplaced chunk changes the decoded value",
